@@ -272,6 +272,8 @@ func (g *gen) evolve(ts []dtab, kind string) ([]dtab, bool) {
 			rest = append(rest, o)
 		}
 		return rest, true
+	case "AE":
+		t.cols = append(t.cols, dcol{name: g.name("c_"), typ: "enum", enum: g.name("e_"), vals: []string{"a", "b"}, null: true})
 	case "AC":
 		c := g.col(nil)
 		if c.typ == "enum" {
@@ -445,12 +447,13 @@ func runReplay(w *out.W, tier string) {
 		}
 		replayCase(w, fmt.Sprintf("r%d", i), g, cfg, scope)
 	}
+	runReplaySweep(w, tier, r)
 	for k, v := range replaySpurious {
 		w.Dist["obs:modified-without-description-change:"+k] = v
 	}
 }
 
-func replayCase(w *out.W, id string, g *gen, cfg planCfg, scope string) {
+func replayCase(w *out.W, id string, g *gen, cfg planCfg, scope string, script ...[]string) {
 	dial := "mysql"
 	if cfg.pg {
 		dial = "pg"
@@ -466,6 +469,9 @@ func replayCase(w *out.W, id string, g *gen, cfg planCfg, scope string) {
 	}
 	pl := migrate.NewPlanner(drv, dir, opts...)
 	steps := 2 + g.r.Intn(3) // 1-3 migrations of history + the judged next plan(s)
+	if len(script) > 0 {
+		steps = len(script)
+	}
 	var state []dtab
 	var trail []string
 	w.Count("dialect:" + dial)
@@ -478,7 +484,20 @@ func replayCase(w *out.W, id string, g *gen, cfg planCfg, scope string) {
 		next := state
 		var kinds []string
 		lone := g.r.Chance(1, 4)
-		for n := 1 + g.r.Intn(3); n > 0; {
+		if len(script) > 0 {
+			// sweep: the evolutions of this step are prescribed (a kind the state offers no
+			// object for is retried on other tables, then left out)
+			for _, k := range script[step-1] {
+				for try := 0; try < 12; try++ {
+					if nx, ok := g.evolve(next, k); ok {
+						next = nx
+						kinds = append(kinds, k)
+						break
+					}
+				}
+			}
+		}
+		for n := 1 + g.r.Intn(3); n > 0 && len(script) == 0; {
 			k := rng.Pick(g.r, evolveKinds)
 			if step == 1 && len(kinds) < 2 {
 				k = "AT"
@@ -511,6 +530,9 @@ func replayCase(w *out.W, id string, g *gen, cfg planCfg, scope string) {
 			caseLine = replayCaseLine(drv, cfg, state, next, desired.Schemas[0])
 		}
 		record := func(obs string) {
+			if len(script) > 0 && step == steps {
+				w.Count("sweep-final:" + strings.Join(script[step-1], "+") + ":" + strings.Join(kinds, "+") + ":" + strings.SplitN(obs, ":", 2)[0])
+			}
 			if caseLine != "" {
 				w.Case(fmt.Sprintf("%s.s%d", id, step), caseLine, []string{obs})
 			}
@@ -711,4 +733,48 @@ func replayCaseLine(drv *devDrv, cfg planCfg, cur, des []dtab, desS *schema.Sche
 	ts = append(ts, itoa(len(mods)))
 	ts = append(ts, mods...)
 	return strings.Join(ts, " ")
+}
+
+// runReplaySweep: the systematic part of stage replay.  A fixed shape of history -- three
+// tables, then foreign keys / indexes / checks / an enum column added by a second migration --
+// and then EACH evolution kind alone as the next plan (so that no drop / modification is
+// judged only in company of another change), x qualifier {"", custom, realm scope} x dialect
+// x a few draws of the names and of the table the evolution lands on.
+func runReplaySweep(w *out.W, tier string, r *rng.R) {
+	variants := 6
+	if tier == "thorough" {
+		variants = 60
+	}
+	id := 0
+	for _, pg := range []bool{false, true} {
+		for qi := 0; qi < 3; qi++ {
+			for _, kind := range evolveKinds {
+				for v := 0; v < variants; v++ {
+					id++
+					g := &gen{r: r, pg: pg, acyclic: true, noQuote: true}
+					if v%3 == 2 {
+						g.rshape = 3
+					}
+					dev := g.shaped(fmt.Sprintf("dev%dx", 100+r.Intn(900)), g.pickShape(), "")
+					user := g.shaped(fmt.Sprintf("mkr%dx", 100+r.Intn(900)), g.pickShape(), "")
+					cfg := planCfg{pg: pg, marker: user, dev: dev, mode: migrate.PlanModeUnset}
+					scope := "schema"
+					switch qi {
+					case 0:
+						cfg.q = sp("")
+					case 1:
+						cfg.q = sp(g.shaped(fmt.Sprintf("qz%d", r.Intn(100)), g.pickShape(), ""))
+					default:
+						scope, cfg.dev = "realm", ""
+					}
+					if v%2 == 1 {
+						cfg.indent = "  "
+					}
+					w.Count("sweep-kind:" + kind)
+					replayCase(w, fmt.Sprintf("v%d", id), g, cfg, scope,
+						[]string{"AT", "AT", "AT"}, []string{"AF", "AF", "AI", "AI", "AK", "AE", "TC"}, []string{kind})
+				}
+			}
+		}
+	}
 }
